@@ -8,9 +8,15 @@
   Encodings (all inside PyVal tokens, harness/servercases.py writes them):
     cfg       L2 I<version in tenths> <use_jsonclass: T|F>
     sig       L4 L<n> S<name>.. I<ndefaults> <*args: T|F> <**kwargs: T|F>
-    beh       L2 S"ret" <v>  |  L1 S"echo" (returns params)  |  L5 S"raise" S<cls> S<text> <isTypeError> <isAttributeError>
+    beh       L2 S"ret" <v>  |  L1 S"echo" (returns params)
+              |  L6 S"raise" S<cls> S<text> <isTypeError> <isAttributeError> I<depth>   (depth: see CallOutcome.raised)
+              |  L5 S"raise" S<cls> S<text> <isTypeError> <isAttributeError>            (= depth 2: raised by a helper
+                     called from the function's own frame, which is what the generated defs of harness/props/c01.py do)
+              |  L3 S"ptable" L<n> (L2 <params> <beh>).. <default beh>   (behaviour by the `params` value: opaque
+                     callables — builtins, partials, callable objects, decorated functions — whose outcome on each
+                     argument value was observed on a twin by Python itself)
     callable  L2 <sig> <beh>
-    attr      L2 <callable|N> L<n> (L2 S<name> <attr>)..
+    attr      L2 <callable|N> L<n> (L2 S<name> <attr>)..   |   S"none" (an attribute bound to None)
     dispfn    <beh>  |  L3 S"table" M<n> S<method> <beh> .. <default beh>
     registry  M3 S"funcs" L<n> (L2 S<name> <callable>).. S"inst" (N | M2 S"dispatch" (N|<dispfn>) S"attrs" L<n> (L2 S<name> <attr>)..)
                  S"custom" (N|<dispfn>)
@@ -29,11 +35,26 @@ import JRV.Model.Server
 namespace JRV.Driver
 open JRV JRV.Codec JRV.Callable JRV.Server
 
-def behOf : PyVal → Option (PyVal → CallOutcome)
+def simpleBehOf : PyVal → Option (PyVal → CallOutcome)
   | .list [.str "ret", v] => some fun _ => .ret v
   | .list [.str "echo"] => some fun p => .ret p
-  | .list [.str "raise", .str c, .str m, .bool te, .bool ae] => some fun _ => .raised c m te ae
+  | .list [.str "raise", .str c, .str m, .bool te, .bool ae, .int d] =>
+    if d < 0 then none else some fun _ => .raised c m te ae d.toNat
+  | .list [.str "raise", .str c, .str m, .bool te, .bool ae] => some fun _ => .raised c m te ae 2
   | _ => none
+
+def behOf : PyVal → Option (PyVal → CallOutcome)
+  | .list [.str "ptable", .list rows, dflt] => do
+    let d ← simpleBehOf dflt
+    let entries ← rows.mapM fun row =>
+      match row with
+      | .list [p, b] => (simpleBehOf b).map fun f => (p, f)
+      | _ => none
+    some fun params =>
+      match entries.find? (fun e => e.1 == params) with
+      | some (_, f) => f params
+      | none => d params
+  | b => simpleBehOf b
 
 def dispFnOf : PyVal → Option DispatchFn
   | .list [.str "table", .dict tbl, dflt] => do
@@ -71,6 +92,7 @@ def callableOf : PyVal → Option Callable
 
 def attrOf : Nat → PyVal → Option Attr
   | 0, _ => none
+  | _ + 1, .str "none" => some .noneValue
   | fuel + 1, .list [c, .list chs] => do
     let callable ← match c with
       | .none => some none
